@@ -112,6 +112,9 @@ def directed_cases():
         out.append(["begin", "call lib_init", "call shm_new 0 1 %d x" % sizes[0], "call shm_new 1 1 %d x" % sizes[1], "call shmbuf_new 2 2 %d x" % sizes[0],
                     "call shmbuf_new 3 2 %d x" % sizes[1], "call shmbuf_rw 3 x", "call shm_free 1", "call shmbuf_free 3", "call shmbuf_free 2",
                     "call shm_free 0", "call lib_shutdown", "end"])
+    # a whole directory walk (the fixture holds a dangling symbolic link: the stat-failed path of p_dir_get_next_entry)
+    out.append(["begin", "call lib_init", "call dir_new 0 0 x"] + [c for _ in range(6) for c in ("call dir_next 0 1 x", "call dirent_free 1")]
+               + ["call dir_rewind 0", "call dir_next 0 1 x", "call dirent_free 1", "call dir_free 0", "call lib_shutdown", "end"])
     # a raw segment too small to hold a buffer: p_shm_buffer_new on the same name fails and must release its attachment
     out.append(["begin", "call lib_init", "call shm_new 0 1 3 x", "call shmbuf_new 1 1 0 x", "call shmbuf_new 2 1 2 x", "call shm_own 0", "call shm_free 0",
                 "call lib_shutdown", "end"])
